@@ -1,6 +1,6 @@
 //! C09 Low output latency: only an unfinished trailing construct is held back.
 use crate::engine::*;
-use crate::gens::doc::{Doc, DocOpts, TK, doc};
+use crate::gens::doc::{Doc, DocOpts, Ns, TK, doc};
 use crate::gens::input::{InputOpts, input_in};
 use crate::obs::*;
 use crate::tape::{Tape, fnv, frac_to_pos};
@@ -75,6 +75,28 @@ fn is_end_tag_candidate(s: &[u8]) -> bool {
     s == b"<" || (s.starts_with(b"</") && s[2..].iter().all(|c| c.is_ascii_alphabetic()))
 }
 
+/// (open finding C09-foreign-tags-buffered) exactly the tags of an SVG/MathML island whose
+/// effect on the namespace depends on more than the name: integration-point start tags
+/// (self-closing flag), `<font>` (attributes), and MathML tags whose name has no 64-bit hash
+/// (`annotation-xml`: name compared as text, `encoding` attribute). Every other foreign tag -
+/// `<svg>`/`<math>` themselves, breakout tags, `</svg>`, integration-point end tags - is decided by
+/// its name alone and is released like an HTML tag.
+fn foreign_tag_needs_whole(tok: &crate::gens::doc::Tok) -> bool {
+    let n = tok.name.to_ascii_lowercase();
+    let maybe_unhashable = n.len() > 12 || !n.bytes().all(|c| c.is_ascii_alphabetic() || (b'1'..=b'6').contains(&c));
+    match tok.kind {
+        TK::Start => match n.as_str() {
+            "svg" | "math" => false,
+            "font" => true,
+            "desc" | "title" | "foreignobject" => tok.ns == Ns::Svg,
+            "mi" | "mo" | "mn" | "ms" | "mtext" => tok.ns == Ns::MathMl,
+            _ => maybe_unhashable && tok.ns != Ns::Svg,
+        },
+        TK::End => maybe_unhashable,
+        _ => false,
+    }
+}
+
 /// R-latency: upper bound of bytes that may be held back when the prefix `d.bytes[..k]` has
 /// been written, derived from the generator's layout only.
 pub fn allowed(d: &Doc, k: usize, hk: HK) -> usize {
@@ -88,7 +110,7 @@ pub fn allowed(d: &Doc, k: usize, hk: HK) -> usize {
         TK::Start | TK::End => {
             if complete {
                 0
-            } else if lexing || (tok.island && finding_open("C09-foreign-tags-buffered")) {
+            } else if lexing || (tok.island && foreign_tag_needs_whole(tok) && finding_open("C09-foreign-tags-buffered")) {
                 // (open finding) tags in foreign content may need the whole tag for the tree
                 // builder simulation (integration points, <font>, annotation-xml)
                 off
